@@ -64,6 +64,13 @@ Theorem C11_slot_history_metrics : forall (r0 : option (list R)) (cs : list call
   = map (spec_answer (validate_metric ROps) (fun _ => r0)) cs.
 Proof. exact metrics_history. Qed.
 
+(* ---- functions.normalize + config.EPSILON as translated (keep_zeros=False, the way
+   calculate_element_normals and the normal kernels call it) is Model.normalize, the function
+   C11_normalize_rotation and the C11_normal_rotation_* theorems of Props.v are about *)
+Theorem C11_normalize_translated_is_model : forall a : v3 R,
+  normalize_t ROps false a = normalize ROps a.
+Proof. exact normalize_translated_is_model. Qed.
+
 (* non-vacuity (executed over Q): a mirrored mesh with signed values -1, -1, -2; absolute,
    then signed, then raise_negative on one object: three different answers, the session
    model gives each call its own; and a slot that ignored return_abs would not *)
@@ -84,6 +91,10 @@ Example C11_slot_ignoring_abs_is_wrong :
   <> map (spec_answer (validate_metric QOps) (fun _ => Some [-1#1; -1#1; -2#1]))
          [mkCall "" false true; mkCall "" false false].
 Proof. vm_compute. intros H. discriminate H. Qed.
+Example C11_normalize_example :     (* 3-4-0 vector -> unit; a vector shorter than EPSILON is divided by EPSILON *)
+  normalize_t QOps false (3#1, 4#1, 0#1) = (3#5, 4#5, 0#1) /\
+  normalize_t QOps false (1#1000000, 0#1, 0#1) = (1#10, 0#1, 0#1).
+Proof. vm_compute. split; reflexivity. Qed.
 Example C11_validate_example :
   validate_metric QOps false true [3#1; -5#2; 0#1] = Some [3#1; 5#2; 0#1] /\
   validate_metric QOps true false [3#1; -5#2] = None /\
